@@ -105,6 +105,33 @@ def Cfg.generators (c : Cfg) : List G := c.targets.flatMap T.generators
 /-- every generator of a configured target has a configuration (otherwise `Target.configure` crashes, C17) -/
 def Cfg.wellConfigured (c : Cfg) : Bool := c.generators.all (fun g => (c.gens g).isSome)
 
+/-! ### which targets a context configures, and which refusal an incomplete configuration gets
+
+`ConfiguredContext.__init__` computes `configured_targets` from `generate.model_fields_set` — a Python **set** of the
+keys present in the `generate` section, iterated in an arbitrary (hash-seed dependent) order. `parse` configures the
+configured targets one after the other; `Target.configure` refuses with "Missing configuration for 'generate.<g>'
+(required by target '<t>')" for the first of its generators without a section. -/
+
+/-- `[target for key, target in self._generate_targets.items() if key in generate_targets]`: the registry (an ordered
+    dict) filtered by membership; `fieldsSet` is the set in its iteration order -/
+def configuredTargets (registry : List T) (fieldsSet : List String) : List T :=
+  registry.filter (fun t => fieldsSet.contains t.key)
+
+/-- the other way round — walk the set, look every key up: same targets, in the set's iteration order -/
+def configuredTargetsBySet (registry : List T) (fieldsSet : List String) : List T :=
+  fieldsSet.filterMap (fun k => registry.find? (fun t => t.key == k))
+
+/-- `Target.configure`: the first generator of the target that has no section -/
+def missingGen (has : G → Bool) (t : T) : Option G := t.generators.find? (fun g => !has g)
+
+/-- what `parse` answers for a list of configured targets: the first target (in list order) with a generator that has
+    no section, and that generator; `none`: every target is completely configured -/
+def refusal (has : G → Bool) : List T → Option (T × G)
+  | [] => none
+  | t :: ts => match missingGen has t with
+    | some g => some (t, g)
+    | none => refusal has ts
+
 /-- an accepted program: files read, declarations handed to the generators -/
 structure Prog where
   id : String                -- digest of all input files
